@@ -6,6 +6,12 @@
 //!                   `Entry::is_add_conflict`, `Entry::resolve_add_conflict` (comparison, origin test)
 //!   repl/proto.rs   `ReplIncrementalEntryV1::new` — the range test, its default, the replicated test
 //!   valueset/*.rs   which types override `repl_merge_valueset` with something other than `None`
+//! and item `repl-reap-ops` (C09): regenerates `Generated/ReapOps.lean` from
+//!   repl/entry.rs   `EntryChangeState::can_delete`
+//!   repl/ruv.rs     `trim_up_to` (which cids leave, empty servers dropped), `filter_ruv_range`
+//!   be/mod.rs       `reap_tombstones` (anchor before trim, partition by `can_delete(trim_cid)`)
+//!   server/recycle.rs `purge_tombstones`, `purge_recycled`; server/mod.rs the two `trim_cid`s;
+//!   repl/cid.rs     `sub_secs`; constants/mod.rs the two `#[cfg(not(test))]` windows
 //! Any shape not recognised is an `Err` (never a guess).
 use crate::util::*;
 use quote::ToTokens;
@@ -15,6 +21,7 @@ use syn::{Expr, Stmt};
 pub fn run(item: &str, repo: &str, out: &str) -> Option<Result<String, String>> {
     match item {
         "repl-merge-ops" => Some(repl_merge_ops(repo, out)),
+        "repl-reap-ops" => Some(repl_reap_ops(repo, out)),
         _ => None,
     }
 }
@@ -486,5 +493,171 @@ end Kanidm.Gen.ReplMergeOps\n",
     Ok(format!(
         "ReplMergeOps: take_left `{take_left}`, {} value arms, one-sided {}/{} {}/{}, retain {retain}, at {at_from}, tombstone arms keep {tl_keeps}/{lt_keeps}, ts/ts `{tt_cond}`, add-conflict `{add_when}`, incoming loses `{loses}`, copy at origin {origin_only}, range `{}` default {} replicated {}, merging valuesets {:?}",
         arms_lean.len(), left_only.0, left_only.1, right_only.0, right_only.1, within.1, within.2, within.0, merging
+    ))
+}
+
+/// `#[cfg(not(test))] pub const NAME: u64 = EXPR;`
+fn const_not_test(file: &syn::File, name: &str) -> Result<i128, String> {
+    for it in &file.items {
+        if let syn::Item::Const(c) = it {
+            if c.ident == name && c.attrs.iter().any(|a| squash(a) == "#[cfg(not(test))]") {
+                return eval_int(&c.expr, &|_| None);
+            }
+        }
+    }
+    Err(format!("no `#[cfg(not(test))] const {name}`"))
+}
+
+fn once(hay: &str, needle: &str, what: &str) -> Result<usize, String> {
+    match hay.matches(needle).count() {
+        1 => Ok(hay.find(needle).unwrap_or(0)),
+        n => Err(format!("{what}: expected exactly one `{needle}`, found {n}")),
+    }
+}
+
+fn repl_reap_ops(repo: &str, out: &str) -> Result<String, String> {
+    // ---- can_delete
+    let ent = parse_file(repo, "server/lib/src/repl/entry.rs")?;
+    let cd = find_fn(&ent, "EntryChangeState::can_delete")?;
+    let ms = matches_on(&cd.block, "&self.st");
+    if ms.len() != 1 || ms[0].arms.len() != 2 {
+        return Err("can_delete: expected one two-armed match on &self.st".into());
+    }
+    let mut tomb = None;
+    let mut live = None;
+    for a in &ms[0].arms {
+        match squash(&a.pat).as_str() {
+            "State::Live{..}" => {
+                live = Some(match squash(&a.body).as_str() {
+                    "false" => false,
+                    "true" => true,
+                    o => return Err(format!("can_delete: Live arm is `{o}`")),
+                })
+            }
+            "State::Tombstone{at}" => tomb = Some(cmp_lt(&a.body, &[("at", "at_"), ("cid", "cid")], "can_delete")?),
+            o => return Err(format!("can_delete: unrecognised pattern `{o}`")),
+        }
+    }
+    let (tomb, live) = (tomb.ok_or("can_delete: no Tombstone arm")?, live.ok_or("can_delete: no Live arm")?);
+    // ---- trim_up_to / filter_ruv_range
+    let ruv = parse_file(repo, "server/lib/src/repl/ruv.rs")?;
+    let tu = squash(&find_fn(&ruv, "ReplicationUpdateVectorWriteTransaction::trim_up_to")?.block);
+    let trim_removes = if tu.matches("for(cid,ex_idl)inself.data.range((Unbounded,Excluded(cid))){").count() == 1 && tu.matches("self.data.split_off_lt(cid);").count() == 1 {
+        "lt c trim"
+    } else {
+        return Err("trim_up_to: the walked range / split_off_lt not recognised".into());
+    };
+    once(&tu, "if!server_range.remove(&cid.ts){", "trim_up_to")?;
+    let drops_empty = tu.matches("ifserver_range.is_empty(){remove_suuid.push(cid.s_uuid);").count() == 1 && tu.matches("fors_uuidinremove_suuid{letx=self.ranged.remove(&s_uuid);").count() == 1;
+    if !drops_empty {
+        return Err("trim_up_to: removal of servers without timestamps not recognised".into());
+    }
+    let fr = find_fn(&ruv, "ReplicationUpdateVectorTransaction::filter_ruv_range")?;
+    let conds = if_conditions(&fr.block);
+    if conds.len() != 1 {
+        return Err(format!("filter_ruv_range: expected one `if`, found {}", conds.len()));
+    }
+    let fr_s = squash(&fr.block);
+    once(&fr_s, "(Some(first),Some(last))=>{iflast<&trim_cid.ts{None}else{Some(Ok((*s_uuid,ReplCidRange{ts_min:*first,ts_max:*last,},)))}}", "filter_ruv_range").or_else(|_| {
+        // any other comparison is rendered below, but the two branches must keep their roles
+        if fr_s.contains("{None}else{Some(Ok((*s_uuid,ReplCidRange{ts_min:*first,ts_max:*last,},)))}") { Ok(0) } else { Err("filter_ruv_range: branches not recognised".to_string()) }
+    })?;
+    let filter_drops = lean_expr(&conds[0], &super::vars(&[("last", "last"), ("trim_cid.ts", "trimTs")])).map_err(|e| format!("filter_ruv_range: {e}"))?;
+    // ---- reap_tombstones
+    let be = parse_file(repo, "server/lib/src/be/mod.rs")?;
+    let rt = squash(&find_fn(&be, "BackendWriteTransaction::reap_tombstones")?.block);
+    let i_anchor = once(&rt, "self.get_ruv().insert_change(cid,IDLBitRange::default())?;", "reap_tombstones")?;
+    let i_trim = once(&rt, "letidl=self.get_ruv().trim_up_to(trim_cid)", "reap_tombstones")?;
+    let anchor_first = i_anchor < i_trim;
+    let tests_trim = rt.matches(".partition(|e|e.get_changestate().can_delete(trim_cid));").count() == 1;
+    if !tests_trim {
+        return Err("reap_tombstones: partition by can_delete(trim_cid) not recognised".into());
+    }
+    once(&rt, "let(tombstones,leftover):(Vec<_>,Vec<_>)=entries.into_iter()", "reap_tombstones")?;
+    once(&rt, "letid_list:IDLBitRange=tombstones.iter().map(|e|e.get_id()).collect();", "reap_tombstones")?;
+    once(&rt, "self.get_idlayer().delete_identry(id_list.into_iter())?;", "reap_tombstones")?;
+    // ---- purge_tombstones / purge_recycled
+    let rec = parse_file(repo, "server/lib/src/server/recycle.rs")?;
+    let pt = squash(&find_fn(&rec, "QueryServerWriteTransaction::purge_tombstones")?.block);
+    let anchors_txn = pt.matches("lettrim_cid=self.trim_cid().clone();letanchor_cid=self.get_txn_cid().clone();").count() == 1 && pt.matches(".reap_tombstones(&anchor_cid,&trim_cid)").count() == 1;
+    if !anchors_txn {
+        return Err("purge_tombstones: anchor / trim cids not recognised".into());
+    }
+    let pr = squash(&find_fn(&rec, "QueryServerWriteTransaction::purge_recycled")?.block);
+    once(&pr, "letcid=self.cid.sub_secs(RECYCLEBIN_MAX_AGE)", "purge_recycled")?;
+    let expired = if pr.matches("filter_all!(f_and!([f_eq(Attribute::Class,EntryClass::Recycled.into()),f_lt(Attribute::LastModifiedCid,PartialValue::new_cid(cid)),]))").count() == 1 {
+        "lt lastMod cutoff"
+    } else {
+        return Err("purge_recycled: search filter not recognised".into());
+    };
+    let tomb_at_txn = pr.matches("e.to_tombstone(self.cid.clone())").count() == 1 && pr.matches(".modify(&self.cid,&rc,&tombstone_cand)").count() == 1;
+    if !tomb_at_txn {
+        return Err("purge_recycled: to_tombstone(self.cid) / backend modify not recognised".into());
+    }
+    // ---- trim_cid and sub_secs
+    let srv = parse_file(repo, "server/lib/src/server/mod.rs")?;
+    let w = squash(&find_fn(&srv, "QueryServer::write")?.block);
+    let r = squash(&find_fn(&srv, "QueryServer::read")?.block);
+    let from_changelog = w.matches("lettrim_cid=cid.sub_secs(CHANGELOG_MAX_AGE)?;").count() == 1 && r.matches("lettrim_cid=cid_max.sub_secs(CHANGELOG_MAX_AGE)?;").count() == 1;
+    if !from_changelog {
+        return Err("QueryServer::read/write: trim_cid is no longer cid.sub_secs(CHANGELOG_MAX_AGE)".into());
+    }
+    let cid = parse_file(repo, "server/lib/src/repl/cid.rs")?;
+    let ss = squash(&find_fn(&cid, "Cid::sub_secs")?.block);
+    if ss != "{self.ts.checked_sub(Duration::from_secs(secs)).map(|r|Cid{s_uuid:uuid!(\"00000000-0000-0000-0000-000000000000\"),ts:r,}).ok_or(OperationError::InvalidReplChangeId)}" {
+        return Err(format!("Cid::sub_secs: body not recognised: {ss}"));
+    }
+    let consts = parse_file(repo, "server/lib/src/constants/mod.rs")?;
+    let cl = const_not_test(&consts, "CHANGELOG_MAX_AGE")?;
+    let rb = const_not_test(&consts, "RECYCLEBIN_MAX_AGE")?;
+    let b = |x: bool| if x { "true" } else { "false" };
+    let body = format!(
+        "namespace Kanidm.Gen.ReapOps\n\
+/-- EntryChangeState::can_delete: the Tombstone arm compares `at` with the cid given, the Live arm is a constant -/\n\
+def canDeleteTomb {{α : Type}} (lt : α → α → Bool) (at_ cid : α) : Bool := {tomb}\n\
+def canDeleteLive : Bool := {live}\n\
+/-- ReplicationUpdateVectorWriteTransaction::trim_up_to: `self.data.range((Unbounded, Excluded(cid)))` and `self.data.split_off_lt(cid)`: which cids leave the vector -/\n\
+def trimRemoves {{α : Type}} (lt : α → α → Bool) (c trim : α) : Bool := {tr}\n\
+/-- trim_up_to: a server whose timestamp set becomes empty is removed from `ranged` -/\n\
+def trimDropsEmptyServers : Bool := {de}\n\
+/-- ReplicationUpdateVectorTransaction::filter_ruv_range: the condition under which a server is left out of the view -/\n\
+def filterDrops (last trimTs : Nat) : Bool := {fd}\n\
+/-- BackendWriteTransaction::reap_tombstones: `insert_change(cid, ..)` (the anchor) precedes `trim_up_to(trim_cid)`; the entries found are partitioned by `can_delete(trim_cid)` -/\n\
+def anchorBeforeTrim : Bool := {af}\n\
+def reapTestsTrimCid : Bool := {tt}\n\
+/-- QueryServerWriteTransaction::purge_tombstones: `reap_tombstones(&anchor_cid, &trim_cid)` with anchor = `get_txn_cid()`, trim = `trim_cid()` -/\n\
+def purgeAnchorsAtTxnCid : Bool := {at}\n\
+/-- QueryServer::write / read: `trim_cid = cid.sub_secs(CHANGELOG_MAX_AGE)`; Cid::sub_secs keeps the timestamp minus the seconds under the nil server uuid (0), an error if it would be negative -/\n\
+def trimFromChangelogMaxAge : Bool := {fc}\n\
+def subSecsServer : Nat := 0\n\
+/-- constants/mod.rs, `#[cfg(not(test))]`: seconds -/\n\
+def changelogMaxAge : Nat := {cl}\n\
+def recyclebinMaxAge : Nat := {rb}\n\
+/-- QueryServerWriteTransaction::purge_recycled: recycled entries with `f_lt(LastModifiedCid, cid.sub_secs(RECYCLEBIN_MAX_AGE))` become tombstones `to_tombstone(self.cid)` -/\n\
+def recycleExpired {{α : Type}} (lt : α → α → Bool) (lastMod cutoff : α) : Bool := {ex}\n\
+def purgeRecycledTombstonesAtTxnCid : Bool := {ta}\n\
+end Kanidm.Gen.ReapOps\n",
+        tomb = tomb,
+        live = b(live),
+        tr = trim_removes,
+        de = b(drops_empty),
+        fd = filter_drops,
+        af = b(anchor_first),
+        tt = b(tests_trim),
+        at = b(anchors_txn),
+        fc = b(from_changelog),
+        cl = cl,
+        rb = rb,
+        ex = expired,
+        ta = b(tomb_at_txn),
+    );
+    write_generated(
+        out,
+        "ReapOps",
+        "server/lib/src/repl/entry.rs (can_delete) + server/lib/src/repl/ruv.rs (trim_up_to, filter_ruv_range) + server/lib/src/be/mod.rs (reap_tombstones) + server/lib/src/server/recycle.rs (purge_recycled, purge_tombstones) + server/lib/src/server/mod.rs (trim_cid) + server/lib/src/repl/cid.rs (sub_secs) + server/lib/src/constants/mod.rs",
+        &body,
+    )?;
+    Ok(format!(
+        "ReapOps: can_delete tomb `{tomb}` live {live}, trim removes `{trim_removes}`, view drops `{filter_drops}`, anchor first {anchor_first}, windows {cl}/{rb} s, expired `{expired}`"
     ))
 }
